@@ -355,6 +355,11 @@ func vocabOf(fn *ssa.Function, opaque func(callee *ssa.Function) bool) map[strin
 					cc := x.Common()
 					if cc.IsInvoke() {
 						record(cc)
+						// an interface of the package itself (ByteOrder): its implementations in the
+						// package are what the call may run
+						for _, impl := range homeImplementations(f, cc) {
+							visit(impl, depth+1)
+						}
 						continue
 					}
 					if _, ok := cc.Value.(*ssa.Builtin); ok {
@@ -802,4 +807,38 @@ func sigShape(fn *ssa.Function) string {
 		parts = append(parts, types.TypeString(pa.Type(), func(*types.Package) string { return "" }))
 	}
 	return strings.Join(parts, ",")
+}
+
+// homeImplementations: for an invoke of a method of an interface declared in the caller's own
+// package, the methods of that name on the package's types that implement the interface.
+func homeImplementations(f *ssa.Function, cc *ssa.CallCommon) []*ssa.Function {
+	if f.Pkg == nil || cc.Method == nil || cc.Method.Pkg() == nil || cc.Method.Pkg() != f.Pkg.Pkg {
+		return nil
+	}
+	iface, ok := cc.Value.Type().Underlying().(*types.Interface)
+	if !ok {
+		return nil
+	}
+	var out []*ssa.Function
+	for _, m := range f.Pkg.Members {
+		t, ok := m.(*ssa.Type)
+		if !ok {
+			continue
+		}
+		for _, ty := range []types.Type{t.Type(), types.NewPointer(t.Type())} {
+			if _, isIface := ty.Underlying().(*types.Interface); isIface || !types.Implements(ty, iface) {
+				continue
+			}
+			sel := f.Prog.MethodSets.MethodSet(ty).Lookup(cc.Method.Pkg(), cc.Method.Name())
+			if sel == nil {
+				continue
+			}
+			if fn := f.Prog.MethodValue(sel); fn != nil && len(fn.Blocks) > 0 {
+				out = append(out, fn)
+			}
+			break
+		}
+	}
+	sort.Slice(out, func(i, j int) bool { return out[i].String() < out[j].String() })
+	return out
 }
